@@ -58,6 +58,8 @@ func NewUintListDecoder(reuseRecords bool) *UintListDecoder {
 }
 
 func (d *UintListDecoder) makeUintSlice(n uint32) []uint32 {
+	// n comes from the input: use it as a capacity hint only up to a limit
+	n = minUint32(n, 4096)
 	if d.sl == nil {
 		return make([]uint32, 0, n)
 	}
